@@ -18,7 +18,7 @@ import sys
 
 from harness import common, par, refbroker, vrt
 
-BLOCKERS = ['rpc', 'confirm', 'get', 'body', 'consume', 'chan-open', 'close', 'idle-call', 'pde']
+BLOCKERS = ['rpc', 'confirm', 'get', 'body', 'consume', 'chan-open', 'close', 'idle-call', 'pde', 'gen']
 KINDS = ['eof', 'reset', 'epipe', 'poll-error']
 SLACK_MS = 30
 
@@ -142,13 +142,14 @@ def blocked_one(args):
             chans[i] = ch
             if b == 'confirm':
                 ch.confirm_deliveries()
-            elif b in ('consume', 'pde'):
+            elif b in ('consume', 'pde', 'gen'):
                 ch.basic.consume(lambda m: None, 'cq%d' % i)
             elif b == 'body':
                 ch.queue.declare('bq')
                 broker.queues['bq'].append((spec.Basic.Properties(), b'z' * 300, '', 'bq'))
         out['chan_ids'] = {i: ch.channel_id for i, ch in chans.items()}
         spare = conn.channel(rpc_timeout=60)          # a channel nobody is using when the transport dies
+        pub = conn.channel(rpc_timeout=60) if sc.get('reader_busy') and sc['kind'] == 'epipe-write' else None
 
         def runner(i, b):
             def call():
@@ -163,6 +164,9 @@ def blocked_one(args):
                     ch.basic.get('bq')
                 elif b == 'consume':
                     ch.start_consuming()
+                elif b == 'gen':
+                    for _m in ch.build_inbound_messages(break_on_empty=False):
+                        pass
                 elif b == 'pde':
                     while True:
                         ch.process_data_events()
@@ -229,14 +233,39 @@ def blocked_one(args):
             broker.close_connection(320, 'CONNECTION_FORCED - going down')
             broker.silent = True
             ctx.quiesce()
-        if sc['kind'] == 'epipe-write':
+        if sc.get('reader_busy') and sc['kind'] == 'poll-error':
+            # the reader still has a frame to answer (the broker closes the spare channel) when the failure is found:
+            # tearing the connection down must not wait for it with the write lock in hand
+            broker.silent = False
+            broker.close_channel(spare.channel_id, 404, 'NOT_FOUND - spare')
+            broker.silent = True
+        if sc.get('reader_busy') and sc['kind'] == 'epipe-write':
+            # half-dead socket: writes fail, what the broker already sent is still delivered.  The broker closes the
+            # spare channel (the reader will want to write CloseOk) and at the same moment a write of this thread fails
+            # and its check tears the connection down: that must not wait for the reader with the write lock in hand
+            sock.dead = 'send-epipe'
+            ctx.net.fault_time = sched.now
+            sched.ev('fault', ('epipe', sock.sent, sock.received))
+            out['fault_time'] = sched.now
+            sock.inbox += __import__('pamqp').frame.marshal(spec.Channel.Close(reply_code=404, reply_text='NOT_FOUND - spare', class_id=0, method_id=0),
+                                                         spare.channel_id)
+            t0 = sched.now
+            try:
+                pub.basic.publish(b'x', 'q')
+                pub.check_for_errors()
+                out['closer'] = ('returned', 0)
+            except amqpstorm.AMQPConnectionError:
+                out['closer'] = ('AMQPConnectionError', sched.now - t0)
+            except BaseException as why:   # noqa
+                out['closer'] = (type(why).__name__, sched.now - t0)
+        elif sc['kind'] == 'epipe-write':
             # the failure is found by a writer: the socket is gone, the reader has not looked yet
             sock.dead = None
             ctx.net.plan.kind = 'epipe'
             sock._die('epipe')
         else:
             sock._die(sc['kind'])
-        out['fault_time'] = sched.now
+        out.setdefault('fault_time', sched.now)
         for t in threads:
             ctx.join(t, timeout=30)
         out['alive'] = [t.name for t in threads if not t.done]
@@ -252,7 +281,7 @@ def blocked_one(args):
     out['lib_excs'] = [(t.name, repr(t.exc)) for t in ctx.sched.threads if t.exc is not None and t.kind != 'app']
     out['main_exc'] = repr(ctx.main.exc) if getattr(ctx.main, 'exc', None) is not None else None
     # ---- model trace --------------------------------------------------------------------------------
-    if sc.get('broker_close_first'):
+    if sc.get('broker_close_first') or sc.get('reader_busy'):
         out['lines'], out['expect'], out['joins'] = [], [], []      # judged by the monitor only
     else:
         out['lines'], out['expect'], out['joins'] = build_trace(sc, ctx.sched.log, ctx.sched.threads)
@@ -490,6 +519,39 @@ def session_one(args):
     return out
 
 
+def seq_join_without_locks(rep):
+    """IO.close() waits for the reader thread.  If it did so with the write (or read) lock in hand, a reader that
+    still has a frame to answer - CloseOk, FlowOk, a handshake reply - would block on that lock and the wait would
+    last the whole socket time-out: the error would reach the caller seconds late.  Deterministic: a stand-in
+    reader thread looks at the locks while it is being joined."""
+    from amqpstorm.io import IO
+    seen = []
+
+    class Reader:
+        def join(self, timeout=None):
+            seen.append((io._wr_lock.locked(), io._rd_lock.locked(), timeout))
+
+    class Sock:
+        def shutdown(self, how):
+            pass
+
+        def close(self):
+            pass
+    io = IO({'timeout': 7, 'ssl': False, 'poller': 'select', 'hostname': 'localhost', 'port': 5672, 'ssl_options': {}}, exceptions=[])
+    io.socket = Sock()
+    io._inbound_thread = Reader()
+    io._running.set()
+    io.close()
+    replay = {'kind': 'seq-join-without-locks'}
+    if len(seen) != 1:
+        rep.violation('C06/reader-not-joined', 'IO.close() joined the reader %d times' % len(seen), replay)
+    elif seen[0][0] or seen[0][1]:
+        rep.violation('C06/reader-joined-with-io-lock-held', 'IO.close() waits for the reader thread (up to %r s) while holding the %s lock: a reader '
+                      'that is about to write a reply blocks on it, and the failure reaches the caller only after the time-out' % (
+                          seen[0][2], 'write' if seen[0][0] else 'read'), replay)
+    rep.case(('seq-join-without-locks',), True, sample={'locks_during_join': seen})
+
+
 def check(rep):
     rng = random.Random(common.seed() * 7919 + 6)
     thorough = rep.tier == 'thorough'
@@ -504,6 +566,7 @@ def check(rep):
         'the reader thread is scheduled before time advances (model: no time passes while the socket is dead and the reader runs)',
         'the trace replay covers waiters that poll Channel.check_for_errors; channel-open and close() waiters are judged by the monitor only',
     ]
+    seq_join_without_locks(rep)
     # ---- COSIM-a -------------------------------------------------------------------------------------
     jobs = []
     import json
@@ -527,6 +590,8 @@ def check(rep):
         sc = {'blockers': bl, 'kind': kind, 'fault_ms': rng.choice([0, 3, 10, 17, 25, 40]), 'idle_ms': rng.choice([5, 30, 60, 120])}
         if rng.random() < 0.15:
             sc['broker_close_first'] = True
+        elif kind in ('poll-error', 'epipe-write') and rng.random() < 0.6:
+            sc['reader_busy'] = True
         if rng.random() < 0.4:
             cand = [k for k, b in enumerate(bl) if b in ('rpc', 'confirm', 'get')]
             if cand:
@@ -550,7 +615,7 @@ def check(rep):
         for b in sc['blockers']:
             rep.count('a_blocker', b)
         judge_blocked(rep, sc, seed, r, bound, idle)
-        if not sc.get('broker_close_first'):
+        if not (sc.get('broker_close_first') or sc.get('reader_busy')):
             judge_model(rep, sc, seed, r, mine)
     # ---- COSIM-b -------------------------------------------------------------------------------------
     probe = session_one(({'kind': 'eof', 'dir': 'recv', 'offset': 10 ** 9, 'rounds': 3, 'body': 200, 'probe': True}, 1))
@@ -639,6 +704,12 @@ def judge_blocked(rep, sc, seed, r, bound, idle):
     if not r.get('conn_closed') or not r.get('chans_closed'):
         rep.violation('C06/not-closed-after-failure', 'after the failure: connection closed=%r, all channels closed=%r' % (
             r.get('conn_closed'), r.get('chans_closed')), replay)
+    if r.get('closer'):
+        if r['closer'][0] != 'AMQPConnectionError':
+            rep.violation('C06/wrong-exception/closer/%s' % r['closer'][0], 'the thread whose write failed got %r' % (r['closer'],), replay)
+        elif r['closer'][1] > bound:
+            rep.violation('C06/teardown-waits-for-reader', 'the check that tore the connection down took %d ms (the reader was writing a reply; bound %d ms)' % (
+                r['closer'][1], bound), replay)
     for d in r.get('joins', []):
         if d > bound - idle:
             rep.violation('C06/close-waits-too-long-for-reader', 'a raising check spent %d ms in Connection.close() (more than one poll time-out)' % d, replay)
@@ -688,7 +759,9 @@ def replay(data):
     rep = common.Report('C06', 'quick')
     idle, poll = _consts()
     bound = poll + idle + SLACK_MS
-    if d.get('kind') == 'blocked':
+    if d.get('kind') == 'seq-join-without-locks':
+        seq_join_without_locks(rep)
+    elif d.get('kind') == 'blocked':
         r = blocked_one((d['scenario'], d['seed']))
         outs = common.run_driver(r['lines'])
         judge_blocked(rep, d['scenario'], d['seed'], r, bound, idle)
